@@ -237,7 +237,7 @@ type Subscription { humanChanged: Human! tick: Int }
 const vSubB = `
 interface Node { id: ID! }
 type Human implements Node { id: ID! phone(cc: Int): String! }
-type Query { node(id: ID!): Node }
+type Query { node(id: ID!): Node phones: Int }
 `
 
 func vSubWorld() *vWorld {
@@ -257,7 +257,7 @@ interface Node { id: ID! }
 type Human implements Node { id: ID! name: String! best: Human meta: Meta phone(cc: Int): String! }
 type Meta { section: Section }
 type Section { editors: [Human!]! chief: Human deputy: Human }
-type Query { node(id: ID!): Node me: Human }
+type Query { node(id: ID!): Node me: Human phones: Int }
 type Subscription { humanChanged: Human! tick: Int }
 `
 
